@@ -32,7 +32,25 @@ import (
 
 var fixedDate = time.Date(2024, 1, 1, 10, 0, 0, 0, time.UTC)
 
-func literalOf(marker string) []byte { return common.Message(marker, "body of "+marker) }
+// literalOf: the literal that belongs to a marker. Markers ending in "BIG" get 600 KiB of pseudo-random printable text
+// (does not compress below 256 KiB: the cache file has more than one sealed block).
+func literalOf(marker string) []byte {
+	if strings.HasSuffix(marker, "BIG") {
+		var sb strings.Builder
+		x := uint32(2463534242)
+		for sb.Len() < 600*1024 {
+			for i := 0; i < 72; i++ {
+				x ^= x << 13
+				x ^= x >> 17
+				x ^= x << 5
+				sb.WriteByte(byte(33 + x%90))
+			}
+			sb.WriteString("\r\n")
+		}
+		return common.Message(marker, sb.String())
+	}
+	return common.Message(marker, "body of "+marker)
+}
 
 // ---- connector with a journal ----
 type jconn struct {
@@ -44,8 +62,9 @@ type jconn struct {
 }
 
 type jrec struct {
-	ID  string `json:"id"`
-	Lit []byte `json:"lit"`
+	ID   string `json:"id"`
+	Lit  []byte `json:"lit"`
+	Gone bool   `json:"gone,omitempty"` // the connector no longer has the message
 }
 
 func (j *jconn) journal(id string, lit []byte) {
@@ -71,6 +90,10 @@ func (j *jconn) load() {
 	for sc.Scan() {
 		var r jrec
 		if json.Unmarshal(sc.Bytes(), &r) == nil {
+			if r.Gone {
+				delete(j.Conn.Messages, imap.MessageID(r.ID))
+				continue
+			}
 			j.Conn.Messages[imap.MessageID(r.ID)] = &hconn.Msg{Literal: r.Lit, Flags: imap.NewFlagSet(), Mboxes: map[imap.MailboxID]bool{}}
 		}
 	}
@@ -238,6 +261,7 @@ type req struct {
 	Op     string `json:"op"`
 	Name   string `json:"name,omitempty"`
 	K      int    `json:"k,omitempty"`
+	Cut    int    `json:"cut,omitempty"`
 	Mode   string `json:"mode,omitempty"`
 	Update *upd   `json:"update,omitempty"`
 }
@@ -323,7 +347,7 @@ func childMain() {
 		switch q.Op {
 		case "arm":
 			rec.mu.Lock()
-			rec.armed, rec.left, rec.mode, rec.fired, rec.seen = true, q.K, q.Mode, false, 0
+			rec.armed, rec.left, rec.mode, rec.fired, rec.seen, rec.cut = true, q.K, q.Mode, false, 0, q.Cut
 			rec.mu.Unlock()
 			out.Encode(resp{OK: true})
 		case "disarm":
@@ -369,6 +393,17 @@ func childMain() {
 				continue
 			}
 			out.Encode(resp{OK: true, Snap: s})
+		case "forget":
+			// the connector loses a message: it cannot deliver it any more, now and after a restart
+			jc.mu.Lock()
+			if f, err := os.OpenFile(jc.path, os.O_APPEND|os.O_CREATE|os.O_WRONLY, 0o600); err == nil {
+				b, _ := json.Marshal(jrec{ID: q.Name, Gone: true})
+				f.Write(append(b, '\n'))
+				f.Close()
+			}
+			jc.mu.Unlock()
+			delete(hc.Messages, imap.MessageID(q.Name))
+			out.Encode(resp{OK: true})
 		case "journal":
 			jc.off = q.Mode == "off"
 			out.Encode(resp{OK: true})
